@@ -486,7 +486,7 @@ def run(chk, replay=None):
     chk.coverage['translator'] = {'status': 'ok' if not info['unparsed'] else 'partial', 'definitions': len(info['defs']),
                                   'unparsed': info['unparsed']}
     # ---- 2. proofs
-    broken = chk.lean(['Lcapy/Props/C09.lean'],
+    broken = chk.lean(['Lcapy/Props/C09.lean', 'Lcapy/Props/NonVacuityC09.lean'],
                       helper_files=['Lcapy/Proofs/Laplace.lean', 'Lcapy/Proofs/LaplaceEntries.lean',
                                     'Lcapy/Proofs/LaplaceUndef.lean', 'Lcapy/Proofs/LaplaceWindow.lean',
                                     'Lcapy/Proofs/LaplaceAnchor.lean', 'Lcapy/Proofs/LaplaceIntegral.lean',
